@@ -698,3 +698,10 @@ package app
 // ---- C15: the health record is written as an ephemeral key ---------------------------------------------------
 //@ func (*app.appDCS).SetHealthState
 //@   assert_at SetEphemeral#1 C15.health_ephemeral [C15]: unbox(callarg1, "*nodestate.NodeState") == state
+
+// ---- C20: structural invariant of the daemon object (assumed at entry in the sweep) -----------------------------
+// Holds once NewApp, connectDCS and newDBCluster have succeeded, which Run checks before it starts any loop.
+//@ define timingsOK(t *Timings) = t.m != nil && has(t.m, NodeFailedAt) && t.m[NodeFailedAt] != nil && has(t.m, StreamFromFailedAt) && t.m[StreamFromFailedAt] != nil && has(t.m, MasterStuckAt) && t.m[MasterStuckAt] != nil && has(t.m, ZKHALost) && t.m[ZKHALost] != nil
+//@ define appOK(app *App) = app.config != nil && app.logger != nil && app.t != nil && timingsOK(app.t) && app.dcs != nil && app.appDCS != nil && app.cluster != nil && clusterOK(app.cluster) && app.switchHelper != nil && app.replRepairState != nil && app.slaveReadPositions != nil
+//@ typeinv *app.Timings timingsOK init app.NewTimings
+//@ typeinv *app.App appOK init app.NewApp, (*app.App).connectDCS, (*app.App).newDBCluster
